@@ -107,6 +107,11 @@ def run(chk):
     from ..corpus import corpus
 
     fams += [(f"corpus::{k}", c) for k, tags, c in corpus(chk.tier, exclude=("x",)) if len(c.inputs()) <= (4 if chk.tier == "quick" else 5)]
+    # node iteration order is insertion order: every family member also with its nodes inserted sinks-first (a gate before
+    # the inputs / constants that drive it)
+    from ..semantic import reinserted
+
+    fams += [(f"{k}@sinks-first", reinserted(c, "sinks-first")) for k, c in fams if (chk.tier == "thorough" or not k.startswith(("and", "or", "nand", "nor", "xor", "xnor", "t2::")))]
     n = 0
     for kname, c in fams:
         snap = c._snapshot()
